@@ -721,17 +721,21 @@ def all_u1(ids):
 
 
 def proofs():
-    """TLAPS: the unbounded version of the region lemma (spec/RegionLemma.tla)."""
+    """TLAPS: unbounded versions of two arithmetic facts the finite checks rely on."""
     import re
-    p = subprocess.run(["timeout", "600", "tlapm", "--threads", "8", "--cleanfp", "RegionLemma.tla"], cwd=SPEC,
-                       stdout=subprocess.PIPE, stderr=subprocess.STDOUT, text=True)
-    m = re.search(r"All (\d+) obligations? proved", p.stdout)
-    res = {"module": "RegionLemma", "ok": bool(m), "obligations": int(m.group(1)) if m else 0,
-           "cmd": "tlapm --threads 8 --cleanfp RegionLemma.tla", "tail": p.stdout[-600:]}
+    res = []
+    bad = 0
+    for mod in ("RegionLemma", "GapLemma"):
+        p = subprocess.run(["timeout", "900", "tlapm", "--threads", "8", "--cleanfp", mod + ".tla"], cwd=SPEC,
+                           stdout=subprocess.PIPE, stderr=subprocess.STDOUT, text=True)
+        m = re.search(r"All (\d+) obligations? proved", p.stdout)
+        res.append({"module": mod, "ok": bool(m), "obligations": int(m.group(1)) if m else 0,
+                    "cmd": "tlapm --threads 8 --cleanfp %s.tla" % mod, "tail": p.stdout[-400:]})
+        log("[proofs] %s: %s (%d obligations)" % (mod, "all proved" if m else "FAILED", res[-1]["obligations"]))
+        bad += 0 if m else 1
     with open(os.path.join(core.VERIF, "evidence", "proofs.json"), "w") as f:
         json.dump(res, f, indent=1)
-    log("[proofs] RegionLemma: %s (%d obligations)" % ("all proved" if m else "FAILED", res["obligations"]))
-    return 0 if m else 2
+    return 2 if bad else 0
 
 
 # ---- selftest: corrupt recorded data, the validator must reject it (DESIGN 4.5) ----
